@@ -16,7 +16,10 @@ LEAVES = [0, -1, 2 ** 70, 1.5, -0.0, 0.0, float('inf'), float('-inf'), float('na
           b'bytes ' * 8,
           # both quote kinds in both majorities, long enough to be split into pieces that hold one kind only
           'both \' and "', 'it\'s \'x\' "y', '"a" "b" \'c', 'say "hi" it\'s a \'test\' of "quotes" here',
-          b'both \' and " in bytes', b'it\'s \'x\' "y" bytes']
+          b'both \' and " in bytes', b'it\'s \'x\' "y" bytes',
+          # long, no whitespace, punctuation only: split at non-word characters
+          b'/usr/local/lib/python3.11/site-packages/prettyprinter/__init__.py', 'pkg.module.sub-module:Class.method;arg=1,2|x' * 2,
+          b'\xff\xfe-\x00\x01/\x80.\x81' * 6]
 HASHABLE_LEAVES = LEAVES
 
 
